@@ -53,7 +53,7 @@ class C07(Check):
     technique = ('exhaustive enumeration of all labelled trees / connected graphs x moved atom x displacement '
                  'alphabet on the real move_mol_atom; stateless choice-point exploration of the owned random draws')
     level_text = ('every labelled tree up to 6 (quick) / 7 (thorough) atoms, every moved atom, 4 displacement '
-                  'classes, 2 bond tables, forests, every connected cyclic graph up to 4/5 vertices, 20/60-atom '
+                  'classes, 2 bond tables, forests, every connected cyclic graph up to 5/6 vertices, 20/60-atom '
                   'families, and every answer of the random draws of find_atom_random_displ are executed on the '
                   'real code; a coverage statement over that finite space, not a proof for all reals')
     level_note = ('trusted: numpy arithmetic, the Pruefer/graph enumerators (self-tested against closed-form counts), '
@@ -65,7 +65,7 @@ class C07(Check):
 
     def units(self, tier, seed):
         nmax = 7 if tier == 'thorough' else 6
-        cyc = 5 if tier == 'thorough' else 4
+        cyc = 6 if tier == 'thorough' else 5
         self.bounds = {'tree_atoms_max': nmax, 'cyclic_vertices_max': cyc,
                        'families': [20, 60], 'displ_tree_atoms_max': 5}
         u = []
@@ -80,7 +80,8 @@ class C07(Check):
             if n <= 4:
                 u.append({'k': 'cyclic', 'n': n, 'mod': 1, 'r': 0})
             else:
-                u += [{'k': 'cyclic', 'n': n, 'mod': 8, 'r': r} for r in range(8)]
+                m = 8 if n == 5 else 96
+                u += [{'k': 'cyclic', 'n': n, 'mod': m, 'r': r} for r in range(m)]
         u.append({'k': 'forest'})
         for fam in ('chain', 'star', 'caterpillar', 'binary_tree'):
             for n in (20, 60):
